@@ -291,6 +291,11 @@ class SimSemLock:
         self._cnt += 1
         self._last = w.cur
         w.version += 1
+        if not block and w.cur.proc is not w.root and w.mgmt_probe_atomic and _in_mgmt_probe():
+            # open finding F-e: nothing may preempt (hence kill) a worker inside its two-statement management-lock probe
+            w.atomic_depth += 1
+            w.atomic_owner = w.cur
+            w.excluded["atomic:mgmt_probe"] = w.excluded.get("atomic:mgmt_probe", 0) + 1
         return True
 
     def release(self):
@@ -316,6 +321,10 @@ class SimSemLock:
             k.holders.pop(0)
         self._cnt -= 1
         w.version += 1
+        if w.atomic_depth and w.atomic_owner is w.cur:
+            w.atomic_depth -= 1
+            w.atomic_owner = None
+            w.sched_point()
 
     def __enter__(self):
         return self.acquire()
@@ -341,6 +350,18 @@ class SimSemLock:
 
     def _after_fork(self):
         self._cnt = 0
+
+
+def _in_mgmt_probe():
+    import linecache
+    f = sys._getframe(2)
+    for _ in range(4):
+        if f is None:
+            return False
+        if f.f_code.co_name == "_process_worker":
+            return "processes_management_lock.acquire" in linecache.getline(f.f_code.co_filename, f.f_lineno)
+        f = f.f_back
+    return False
 
 
 def sim_sem_unlink(name):
